@@ -38,6 +38,8 @@ func runC10(c *core.Ctx) core.Meta {
 	c.BuildSSA()
 	pint := NewPkgInfo(c, drvIntPkg)
 	pd := NewPkgInfo(c, driverPkg)
+	checkLog2Units(c, "R10.19", 10, "Buffers, free lists and the page table must agree on the page size.", pd, pint)
+	checkBuilderPassThrough(c, "R10.18", "The allocator, the page table and the distributor must cut buffers into pages of one size: a distributor left at its constructor default remaps at addresses that are not page boundaries of the configured size, and the page table update panics or re-homes half pages.", pd, map[string]string{"distributorImpl.pageSizeAsPowerOf2": "log2PageSize", "Driver.Log2PageSize": "log2PageSize"})
 	prov := core.NewLocalProv(c)
 
 	checkPhysicalLayout(c, pint, prov)
